@@ -24,7 +24,7 @@ fn main() -> Result<(), Box<dyn Error>> {
     let value =
         xml_xpath::query(dom, arg.expr.as_str(), &mut context).map_err(|v| v.to_string())?;
 
-    match value {
+    match &value {
         xml_xpath::eval::model::Value::Boolean(v) => {
             println!("{}", v);
         }
@@ -39,8 +39,8 @@ fn main() -> Result<(), Box<dyn Error>> {
                 }
             }
         }
-        xml_xpath::eval::model::Value::Number(v) => {
-            println!("{}", v);
+        xml_xpath::eval::model::Value::Number(_) => {
+            println!("{}", String::try_from(&value)?);
         }
         xml_xpath::eval::model::Value::Text(v) => {
             println!("{}", v);
